@@ -14,11 +14,16 @@ package mtls
 //
 // Where the statement does not decide, the oracle is the UNION of the
 // readings (the implementation must agree with at least one of them):
-//   - host-name normalisation (upper case, trailing dot): either the SNI is
-//     compared literally or case-insensitively without trailing dots;
+//   - trailing dots of the SNI: either the SNI is compared as sent or without
+//     its trailing dots;
 //   - depth of a wildcard: "*.a.com" matches "x.a.com" under every reading;
 //     whether it also matches "y.x.a.com" (the wildcard standing for several
 //     labels) is left open.
+// Letter case is NOT left open: DNS names compare case-insensitively (RFC 4343;
+// RFC 6066 section 3 for the server_name extension), so "matches the SNI
+// exactly or by wildcard label" is read on the lower-cased spelling of both the
+// SNI and the configured names: every case variant of an SNI selects what its
+// all-lower-case spelling selects (see also zz_verif_C13_selectcase_test.go).
 // Absent SNI: compared only when no context of the list has an empty
 // server_name (an empty server_name "matching" an absent SNI is the degenerate
 // case the statement does not decide); such cases are still executed and counted.
@@ -46,21 +51,21 @@ type c13SelCase struct {
 	Desc     string   `json:"desc,omitempty"` // human readable rendering of Ctxs (not used on replay)
 }
 
-type c13Reading struct{ fold, multi bool }
+type c13Reading struct{ trimDot, multi bool }
 
 var c13Readings = []c13Reading{{true, false}, {true, true}, {false, false}, {false, true}}
 
 // c13NameMatch: does one configured name match the SNI under a reading?
 func c13NameMatch(names []string, sni string, r c13Reading) (bool, string) {
-	name := sni
-	if r.fold {
-		name = strings.ToLower(strings.TrimRight(name, "."))
+	name := strings.ToLower(sni)
+	if r.trimDot {
+		name = strings.TrimRight(name, ".")
 	}
 	if name == "" {
 		return false, ""
 	}
 	for _, n := range names {
-		if n == name {
+		if strings.ToLower(n) == name {
 			return true, "exact-name"
 		}
 	}
@@ -71,7 +76,7 @@ func c13NameMatch(names []string, sni string, r c13Reading) (bool, string) {
 		}
 		cand := "*." + strings.Join(labels[i:], ".")
 		for _, n := range names {
-			if n == cand {
+			if strings.ToLower(n) == cand {
 				return true, "wildcard-name"
 			}
 		}
@@ -442,7 +447,7 @@ func TestVerifC13SelectionStatic(t *testing.T) {
 	p.Note("listeners_built", c13Builds)
 	p.End(complete, fmt.Sprintf("every ordered list of 1..%d distinct contexts out of %d (name classes %v x ALPN {none,h2,http/1.1}) x %d SNI values %q x %d client ALPN lists %v",
 		maxLen, len(c13Ctxs), c13Labels(), len(c13SNIs), c13SNIs, len(c13ClientALPN), c13ClientALPN),
-		"cartesian product; one evaluation = one ClientHello against one listener built by NewTLSServerContextManager from inline PEM contexts; compared by the leaf certificate of the returned configuration against the statement; upper-case / trailing-dot SNI and multi-label wildcard depth are compared against the union of readings; absent SNI with an empty server_name in the list is executed but not compared; distinct = cases with >=2 contexts (precedence can matter); outcome = deciding rule x presented position")
+		"cartesian product; one evaluation = one ClientHello against one listener built by NewTLSServerContextManager from inline PEM contexts; compared by the leaf certificate of the returned configuration against the statement; upper-case SNI must select what its lower-case spelling selects (DNS names are case-insensitive); trailing-dot SNI and multi-label wildcard depth are compared against the union of readings; absent SNI with an empty server_name in the list is executed but not compared; distinct = cases with >=2 contexts (precedence can matter); outcome = deciding rule x presented position")
 }
 
 func c13Labels() []string {
